@@ -43,6 +43,7 @@ from __future__ import annotations
 
 import argparse
 import keyword
+import math
 import os
 import os.path
 import sys
@@ -607,7 +608,14 @@ class ASTStubGenerator(BaseStubGenerator, mypy.traverser.TraverserVisitor):
                 if not isinstance(get_proper_type(annotated_type), AnyType):
                     typename = self.print_annotation(annotated_type)
 
-            if actually_pos_only_args and arg_.pos_only:
+            # Only a prefix of positional parameters can precede "/". The parser also marks
+            # parameters named "__x" as positional-only, whatever their kind and position.
+            if (
+                actually_pos_only_args
+                and arg_.pos_only
+                and kind.is_positional()
+                and pos_only_marker_position == i
+            ):
                 pos_only_marker_position += 1
 
             if kind.is_named() and not any(arg.name.startswith("*") for arg in args):
@@ -1438,14 +1446,21 @@ class ASTStubGenerator(BaseStubGenerator, mypy.traverser.TraverserVisitor):
             if rvalue.name in ("None", "True", "False"):
                 return rvalue.name, True
         elif isinstance(rvalue, (IntExpr, FloatExpr)):
-            return f"{rvalue.value}", True
+            if isinstance(rvalue.value, int) or math.isfinite(rvalue.value):
+                return f"{rvalue.value}", True
         elif isinstance(rvalue, UnaryExpr):
-            if isinstance(rvalue.expr, (IntExpr, FloatExpr)):
-                return f"{rvalue.op}{rvalue.expr.value}", True
+            if isinstance(rvalue.expr, IntExpr) or (
+                isinstance(rvalue.expr, FloatExpr) and math.isfinite(rvalue.expr.value)
+            ):
+                sep = " " if rvalue.op.isalpha() else ""
+                return f"{rvalue.op}{sep}{rvalue.expr.value}", True
         elif isinstance(rvalue, StrExpr):
             return repr(rvalue.value), True
         elif isinstance(rvalue, BytesExpr):
-            return "b" + repr(rvalue.value).replace("\\\\", "\\"), True
+            # rvalue.value is the body of repr(<the bytes>): it is already escaped for the
+            # delimiter that repr chose (double quotes iff it contains ' but not ").
+            quote = '"' if "'" in rvalue.value and '"' not in rvalue.value else "'"
+            return f"b{quote}{rvalue.value}{quote}", True
         elif isinstance(rvalue, TupleExpr):
             items_defaults = []
             for e in rvalue.items:
